@@ -607,10 +607,18 @@ class Ruby(ContentElement):
     if self.has_children():
       raise RuntimeError("Remove all ruby children before adding more.")
 
+    children = list(children)
+
     ts = [type(x) for x in children]
 
     if ts not in [[Rb, Rt], [Rb, Rp, Rt, Rp], [Rbc, Rtc], [Rbc, Rtc, Rtc]]:
       raise ValueError("Children of ruby do not conform to requirements")
+
+    # check all children before adding any, so that a rejected call does not leave a partial pattern
+
+    if any(c.parent() is not None or c.get_doc() != self.get_doc() for c in children) \
+      or len({id(c) for c in children}) != len(ts):
+      raise RuntimeError("Children must be distinct root elements that belong to the same document")
 
     for child in children:
       super().push_child(child)
@@ -755,13 +763,24 @@ class Rtc(ContentElement):
     raise RuntimeError("Rtc children must be removed using `remove_children`")
 
   def push_children(self, children: typing.Iterable[ContentElement]):
-    cs = list(children)
+    children = list(children)
+
+    cs = children
 
     if len(cs) > 2 and isinstance(cs[0], Rp) and isinstance(cs[-1], Rp):
       cs = cs[1:-1]
 
     if not all(isinstance(x, Rt) for x in cs):
       raise ValueError("Children of rtc do not conform to requirements")
+
+    if self.has_children():
+      raise RuntimeError("Remove all rtc children before adding more.")
+
+    # check all children before adding any, so that a rejected call does not leave a partial pattern
+
+    if any(c.parent() is not None or c.get_doc() != self.get_doc() for c in children) \
+      or len({id(c) for c in children}) != len(children):
+      raise RuntimeError("Children must be distinct root elements that belong to the same document")
 
     for child in children:
       super().push_child(child)
